@@ -85,6 +85,7 @@ type node struct {
 	cacheN  int // 0 = shipped sizes
 	sl      ledger2.StateLedger
 	lg      *ledger.Ledger
+	bf      *blockfile.BlockFile
 	cache   *ledger.AccountCache
 	height  uint64
 	prev    *types.Hash
@@ -149,6 +150,7 @@ func (n *node) open() error {
 		return err
 	}
 	n.lg = lg
+	n.bf = bf
 	n.sl = lg.StateLedger
 	n.height = lg.GetChainMeta().Height
 	n.prev = lg.GetChainMeta().BlockHash
@@ -295,8 +297,8 @@ func (m *model) setCode(a int, c []byte) {
 	m.journal = append(m.journal, func(s mState) { s[a].code = prev })
 	m.work[a].code = c
 }
-func (m *model) snapshot()       { m.snaps = append(m.snaps, len(m.journal)) }
-func (m *model) revert(idx int)  {
+func (m *model) snapshot() { m.snaps = append(m.snaps, len(m.journal)) }
+func (m *model) revert(idx int) {
 	to := m.snaps[idx]
 	for i := len(m.journal) - 1; i >= to; i-- {
 		m.journal[i](m.work)
